@@ -686,4 +686,125 @@ theorem permuteMeta_ok_perm (dims : List Int) (bs bs' : Shape) (nm : Names)
     simp only [resShape, Option.some.injEq] at h
     rw [← h, hpl, List.drop_length, List.append_nil]
 
+/-! ### bindings -/
+
+theorem lookupB_map (b : Binds) (k k' : Key) (id : Nat) :
+    lookupB (b.map (fun q => if q.1 = k then (q.1, id) else q)) k' =
+      if k' = k then (lookupB b k').map (fun _ => id) else lookupB b k' := by
+  induction b with
+  | nil => simp [lookupB]
+  | cons q b ih =>
+    obtain ⟨qk, qid⟩ := q
+    simp only [List.map_cons]
+    by_cases hq : qk = k
+    · subst hq
+      simp only [if_true, lookupB]
+      by_cases hk : qk = k'
+      · subst hk; simp
+      · have hk' : ¬ k' = qk := fun h => hk h.symm
+        simp only [hk, if_false, hk'] at ih ⊢; exact ih
+    · simp only [hq, if_false, lookupB]
+      by_cases hk : qk = k'
+      · subst hk; simp [hq]
+      · simp only [hk, if_false]; exact ih
+
+theorem lookupB_append (b c : Binds) (k : Key) :
+    lookupB (b ++ c) k = match lookupB b k with | some i => some i | none => lookupB c k := by
+  induction b with
+  | nil => simp [lookupB]
+  | cons q b ih =>
+    obtain ⟨qk, qid⟩ := q
+    simp only [List.cons_append, lookupB]
+    by_cases hk : qk = k
+    · simp [hk]
+    · simp only [hk, if_false]; exact ih
+
+theorem lookupB_filter (b : Binds) (f : Key × Nat → Bool) (k : Key) (hf : ∀ id, f (k, id) = true) :
+    lookupB (b.filter f) k = lookupB b k := by
+  induction b with
+  | nil => rfl
+  | cons q b ih =>
+    obtain ⟨qk, qid⟩ := q
+    simp only [List.filter_cons]
+    by_cases hk : qk = k
+    · subst hk; simp [hf, lookupB]
+    · by_cases hfq : f (qk, qid) = true
+      · simp only [hfq, if_true, lookupB, hk, if_false]; exact ih
+      · simp only [hfq, lookupB, hk, if_false]; exact ih
+
+theorem lookupB_filter_none (b : Binds) (f : Key × Nat → Bool) (k : Key) (h : lookupB b k = none) :
+    lookupB (b.filter f) k = none := by
+  induction b with
+  | nil => rfl
+  | cons q b ih =>
+    obtain ⟨qk, qid⟩ := q
+    simp only [lookupB] at h
+    by_cases hk : qk = k
+    · simp [hk] at h
+    · simp only [hk, if_false] at h
+      simp only [List.filter_cons]
+      by_cases hfq : f (qk, qid) = true
+      · simp only [hfq, if_true, lookupB, hk, if_false]; exact ih h
+      · simp only [hfq]; exact ih h
+
+/-- binding a path makes that path name the new tensor -/
+theorem bindPath_lookup_self (b : Binds) (k : Key) (id : Nat) : lookupB (bindPath b (k, id)) k = some id := by
+  unfold bindPath
+  cases h : lookupB b k with
+  | some i => simp [h, lookupB_map]
+  | none =>
+    simp only [h, Option.isSome_none, Bool.false_eq_true, if_false]
+    rw [lookupB_append, lookupB_filter_none _ _ _ h]
+    simp [lookupB]
+
+theorem isPrefixOf_self' {β : Type} [BEq β] [ReflBEq β] : ∀ (l : List β), l.isPrefixOf l = true
+  | [] => rfl
+  | a :: l => by simp [List.isPrefixOf, isPrefixOf_self' l]
+
+/-- ... and leaves every unrelated path bound as it was -/
+theorem bindPath_lookup_other (b : Binds) (k k' : Key) (id : Nat) (hu : Unrelated k' k) :
+    lookupB (bindPath b (k, id)) k' = lookupB b k' := by
+  have hne : k' ≠ k := by
+    intro e; subst e
+    have := hu.1
+    simp [isPrefixKey, isPrefixOf_self'] at this
+  unfold bindPath
+  cases h : lookupB b k with
+  | some i => simp [h, lookupB_map, hne]
+  | none =>
+    simp only [h, Option.isSome_none, Bool.false_eq_true, if_false]
+    rw [lookupB_append, lookupB_filter _ _ _ (by intro i; simp [hu.1, hu.2])]
+    cases lookupB b k' with
+    | some j => rfl
+    | none => simp [lookupB, Ne.symm hne]
+
+theorem foldl_bindPath_other : ∀ (l : Binds) (b : Binds) (k' : Key), (∀ p ∈ l, Unrelated k' p.1) →
+    lookupB (l.foldl bindPath b) k' = lookupB b k'
+  | [], _, _, _ => rfl
+  | p :: l, b, k', h => by
+    rw [List.foldl_cons, foldl_bindPath_other l _ k' (fun q hq => h q (by simp [hq]))]
+    exact bindPath_lookup_other b p.1 k' p.2 (h p (by simp))
+
+theorem lookupB_isSome_iff (b : Binds) (k : Key) : (lookupB b k).isSome = (b.map (·.1)).contains k := by
+  induction b with
+  | nil => rfl
+  | cons q b ih =>
+    obtain ⟨qk, qid⟩ := q
+    simp only [lookupB, List.map_cons, List.contains_cons]
+    by_cases hk : qk = k
+    · subst hk; simp
+    · have : (k == qk) = false := by simp [Ne.symm hk]
+      simp only [hk, if_false, this, Bool.false_or]; exact ih
+
+theorem bindPath_keys (b : Binds) (p : Key × Nat) : (bindPath b p).map (·.1) = insertPath (b.map (·.1)) p.1 := by
+  unfold bindPath insertPath
+  rw [lookupB_isSome_iff]
+  by_cases h : (b.map (·.1)).contains p.1 = true
+  · simp only [h, if_true, List.map_map]
+    apply List.map_congr_left
+    intro q _
+    by_cases hq : q.1 = p.1 <;> simp [hq]
+  · simp only [h, Bool.false_eq_true, if_false, List.map_append, List.map_cons, List.map_nil, List.filter_map]
+    rfl
+
 end TdVerif.C17
